@@ -19,8 +19,9 @@ func runOne(t *testing.T, c *Case, work, sched *choice.Source, out *wproto.Out, 
 	out.Begin(id)
 	out.SetOnStuck(func() {
 		c.Work, c.Sched, c.Pol = work.Tape(), sched.Tape(), sched.AuxTape()
-		out.Finding(id, "livelock|never-returned", "livelock", "the run exceeded its scheduler step budget and, left to run freely, still had not returned three seconds later: an endless loop", c)
-		out.End(id, []string{"livelock|never-returned"})
+		sig, msg := out.StuckWhat()
+		out.Finding(id, sig, "livelock", msg, c)
+		out.End(id, []string{sig})
 		out.Count("evaluations", 1)
 		out.Finish("restart", id+1)
 	})
@@ -98,6 +99,7 @@ func TestWorker(t *testing.T) {
 		t.Fatal(err)
 	}
 	out.StuckFlag = &simsched.Stuck
+	out.StallProbe = simsched.StallProbe
 	// this check leaves the scheduling points at atomic operations off (set here, not in
 	// a package init: the C13 worker imports this package and wants them on)
 	simsched.AtomicYields = false
